@@ -300,7 +300,9 @@ def check(ctx):
         ctx.note("the generator divides by no parameter (no scale to multiply back)")
         scale = None
     else:
-        scale = canon(b.get(div_param)) if b.get(div_param) is not None else None
+        from .common import deref_canon as _dcs
+
+        scale = _dcs(prog, poll, b.get(div_param)) if b.get(div_param) is not None else None
     st = prog.parent(gcall)
     bname = canon(st.targets[0]) if isinstance(st, ast.Assign) else None
     prod = None
@@ -313,7 +315,10 @@ def check(ctx):
                     flat(e.left)
                     flat(e.right)
                 else:
-                    factors.append(canon(e))
+                    from .common import deref_canon as _dcf
+
+                    # a factor kept in a local (mesh size, poll scale) counts as what it was computed from
+                    factors.append(_dcf(prog, poll, e) if isinstance(e, ast.Name) and canon(e) != bname else canon(e))
 
             flat(v)
             prod = (canon(t), sorted(factors), s)
@@ -331,7 +336,9 @@ def check(ctx):
     ctx.rule("R5", "poll candidates are only ever snapped to the search grid the incumbent lies on", floor=0)
     for c, tg in prog.calls_in(poll):
         if any(isinstance(t, FunctionInfo) and t.name == "force_to_grid" for t in tg) and len(c.args) >= 2:
-            okg = canon(c.args[1]) in ("OS[search_mesh_size]", "self.search_mesh_size")
+            from .common import deref_canon as _dcg
+
+            okg = canon(c.args[1]) in ("OS[search_mesh_size]", "self.search_mesh_size") or _dcg(prog, poll, c.args[1]) in ("OS[search_mesh_size]", "self.search_mesh_size")
             ctx.check(okg, poll, c, "poll candidates snapped to the search mesh", f"poll candidates are snapped to a grid of size '{canon(c.args[1])}', not the search mesh: evaluated points are displaced by up to half of that cell from incumbent + mesh_size * direction",
                       construct=f"poll candidates forced to grid {canon(c.args[1])}")
 
